@@ -134,6 +134,7 @@ type verifC20Ctx struct {
 	meta   raft.SnapshotMeta
 	gz     bool
 	useRead bool // exercise snapshot.Read (temp files) instead of Verify for gzip
+	both    bool // additionally run both entry points and demand the same verdict
 	faults  int64
 	regions map[string]int64
 }
@@ -148,6 +149,19 @@ func (x *verifC20Ctx) check(f verifC20Fault, a []byte, mustReject bool, region s
 		gotMeta  raft.SnapshotMeta
 		err      error
 	)
+	if x.gz && x.both {
+		// the two public entry points implement the same verification: an archive Verify rejects must never be
+		// accepted on the restore path (snapshot.Read feeds Restore), and vice versa
+		_, ve := Verify(bytes.NewReader(a))
+		file, _, re := Read(hclog.NewNullLogger(), bytes.NewReader(a))
+		if file != nil {
+			file.Close()
+			os.Remove(file.Name())
+		}
+		if (ve == nil) != (re == nil) {
+			x.fail(f, "C20/verify-and-restore-path-disagree/"+region, "fault %+v: Verify says %v but Read (the restore path) says %v", f, ve, re)
+		}
+	}
 	if !x.gz {
 		gotState, gotMeta, err = verifC20ReadPlain(a)
 	} else if x.useRead {
@@ -336,6 +350,11 @@ func verifC20Plain(x *verifC20Ctx, arch []byte, ms []verifC20Member, full bool, 
 			apply(verifC20Fault{Kind: "inject", Arg: nm, Arg2: where})
 		}
 	}
+	for _, tf := range []string{"5", "2", "1", "6", "3", "4", "7", "g", "S"} { // directory, symlink, hard link, fifo, char, block, contiguous, pax global, GNU sparse
+		for _, where := range []string{"0", "2", "3"} {
+			apply(verifC20Fault{Kind: "inject-typed", Arg: tf, Arg2: where})
+		}
+	}
 	for _, where := range []string{"0", "1", "2", "3"} {
 		apply(verifC20Fault{Kind: "inject-pax", Arg: "state.bin", Arg2: where})
 		apply(verifC20Fault{Kind: "inject-pax", Arg: "other", Arg2: where})
@@ -414,7 +433,7 @@ func verifC20ApplyPlain(arch []byte, ms []verifC20Member, f verifC20Fault, state
 		}
 		parts = append(parts, trailer)
 		return join(parts...), false, "reorder", true
-	case "inject", "inject-pax", "inject-empty-known", "inject-forged-sums":
+	case "inject", "inject-pax", "inject-empty-known", "inject-forged-sums", "inject-typed":
 		where, _ := strconv.Atoi(f.Arg2)
 		var extra []byte
 		must := false
@@ -440,6 +459,18 @@ func verifC20ApplyPlain(arch []byte, ms []verifC20Member, f verifC20Fault, state
 			}
 			extra = join(verifC20RawMember("PaxHeaders.0/x", 'x', []byte(rec("path", f.Arg))), verifC20RawMember("shortname", '0', []byte("pax-data")))
 			must = f.Arg != "state.bin" && f.Arg != "meta.json" && f.Arg != "SHA256SUMS"
+		case "inject-typed":
+			// an unexpected member that is not a regular file (header-only types carry no data)
+			data := []byte(nil)
+			if f.Arg == "7" || f.Arg == "g" {
+				data = []byte("13 foo=bar\n")[:0]
+			}
+			if f.Arg == "7" {
+				data = []byte("contiguous-payload")
+			}
+			extra = verifC20RawMember("extra-"+f.Arg, f.Arg[0], data)
+			must = true
+			region = "inject-typed:" + f.Arg
 		case "inject-empty-known":
 			extra = verifC20RawMember(f.Arg, '0', nil)
 		case "inject-forged-sums":
@@ -452,6 +483,10 @@ func verifC20ApplyPlain(arch []byte, ms []verifC20Member, f verifC20Fault, state
 			cut = ms[where].hdrOff
 		}
 		return join(arch[:cut], extra, arch[cut:]), must, region, true
+	case "after-end-marker":
+		// a further member behind the two zero blocks: tar readers stop at the marker, so only the check for
+		// left-over bytes in the stream (concludeGzipRead) can notice it; plain read() cannot and need not
+		return join(arch, verifC20RawMember(f.Arg, '0', []byte("late")), make([]byte, 1024)), false, "after-end-marker", true
 	case "hdr":
 		i := byName[f.Arg]
 		a := append([]byte{}, arch...)
@@ -587,11 +622,20 @@ func verifC20Gz(x *verifC20Ctx, plain []byte, full bool, samplePos func(n int) [
 				return
 			}
 			x.useRead = f.Arg2 == "read"
+			x.both = true
 			x.check(f, verifC20Gzip(pa), must, "gz-inner-"+reg)
+			x.both = false
 			return
 		}
 		x.useRead = f.Arg2 == "read"
-		x.check(f, a, false, region)
+		x.both = f.Kind == "append" || ((f.Kind == "flip" || f.Kind == "trunc") && (f.Pos >= len(gzArch)-16 || f.Pos < 12 || f.Pos%9 == 0))
+		must := false
+		if f.Kind == "append" && f.Arg == "gz-member-tar" {
+			must = true // a concatenated stream carrying another member: "contains an unexpected member"
+			region = "gz-append-member"
+		}
+		x.check(f, a, must, region)
+		x.both = false
 	}
 	if only != nil {
 		apply(*only)
@@ -661,6 +705,10 @@ func verifC20Gz(x *verifC20Ctx, plain []byte, full bool, samplePos func(n int) [
 			}
 		}
 		inners = append(inners, verifC20Fault{Kind: "trunc", Pos: m.dataOff + m.size/2}, verifC20Fault{Kind: "trunc", Pos: m.hdrOff})
+	}
+	inners = append(inners, verifC20Fault{Kind: "after-end-marker", Arg: "state.bin"}, verifC20Fault{Kind: "after-end-marker", Arg: "extra"})
+	for _, tf := range []string{"5", "2", "7", "g"} {
+		inners = append(inners, verifC20Fault{Kind: "inject-typed", Arg: tf, Arg2: "0"}, verifC20Fault{Kind: "inject-typed", Arg: tf, Arg2: "3"})
 	}
 	for i, in := range inners {
 		b, _ := json.Marshal(in)
